@@ -1,11 +1,13 @@
 #!/bin/sh
 # Re-run the detection matrix: every seeded change against the checks expected to see it.
 # usage: tools/seedmatrix.sh [ids...]   (default: all)   output: one line per (seed, check)
-# ids ending in -C/-D are round 2; every seed directory not listed here is run against its own property
-table="C01-A:C01 C01-B:C01,C06 C02-A:C02,C13 C02-B:C02,C13 C03-A:C03 C03-B:C03,C06 C04-A:C04,C02 C04-B:C04 C05-A:C05 C05-B:C05 C06-A:C06 C06-B:C06 C07-A:C07 C07-B:C07 C08-A:C08 C08-B:C08 C09-A:C09 C09-B:C09,C10 C10-A:C10 C10-B:C10 C11-A:C11 C11-B:C11 C12-A:C12 C12-B:C12 C13-A:C13 C13-B:C13,C02 C14-A:C14 C14-B:C14 C15-A:C15 C15-B:C15 C16-A:C16 C16-B:C16 C17-A:C17 C17-B:C17 C18-A:C18 C18-B:C18 C19-A:C19 C19-B:C19 C20-A:C20 C20-B:C20 C01-D:C01 C03-C:C03 C03-D:C03 C04-C:C04 C04-D:C04 C05-C:C05 C05-D:C05 C06-C:C06 C06-D:C06 C07-C:C07 C07-D:C07 C08-C:C08 C08-D:C08 C09-C:C09 C09-D:C09 C10-C:C10 C10-D:C10 C11-C:C11 C11-D:C11 C12-C:C12 C12-D:C12 C14-D:C14 C15-C:C15 C15-D:C15 C16-C:C16 C16-D:C16 C17-C:C17 C17-D:C17 C18-C:C18 C18-D:C18 C19-C:C19 C19-D:C19 C20-C:C20 C20-D:C20"
+# Every /verif/seeded/<id> is run against the quick check of its own property (the id's first three characters);
+# `extra` lists further checks that also report it.  Ids ending in -A/-B are round 1, -C/-D round 2, -E/-F round 3.
+extra="C01-B:C06 C02-A:C13 C02-B:C13 C03-B:C06 C04-A:C02 C09-B:C10 C13-B:C02 C09-C:C10 C09-D:C10 C07-D:C19"
 want="$*"
-for entry in $table; do
-  id=${entry%%:*}; checks=${entry#*:}
+for d in /verif/seeded/C*; do
+  id=$(basename $d); checks=$(echo $id | cut -c1-3)
+  for e in $extra; do [ "${e%%:*}" = "$id" ] && checks="$checks,${e#*:}"; done
   if [ -n "$want" ]; then case " $want " in *" $id "*) ;; *) continue;; esac; fi
-  /venv/bin/python /verif/tools/seedcheck.py /verif/seeded/$id/patch.diff $checks 2>&1 | grep "^== " | sed "s/^== /$id /"
+  /venv/bin/python /verif/tools/seedcheck.py $d/patch.diff $checks 2>&1 | grep "^== " | sed "s/^== /$id /"
 done
